@@ -105,35 +105,56 @@ def _hex(b):
 
 
 def _run_chunk(reqs, timeout_per_case=20.0):
-    """Run requests sequentially in one harness process; restart on crash.
-    Returns list of (tag, [bytes fields])."""
+    """Run requests sequentially in one harness process, restarting it after a
+    crash or a per-request timeout.  Returns list of (tag, [bytes fields]);
+    tag `crash` = the process died (abort / stack overflow), `timeout` = no
+    answer within timeout_per_case seconds (the process is killed)."""
+    import queue, threading
     out = []
     i = 0
     n = len(reqs)
     while i < n:
-        lines = []
-        for r in reqs[i:]:
-            lines.append(r[0] + "".join("\t" + _hex(x) for x in r[1:]))
-        data = ("\n".join(lines) + "\n").encode()
-        try:
-            p = subprocess.run([HARNESS_BIN], input=data, capture_output=True,
-                               timeout=max(60.0, timeout_per_case * (n - i)),
-                               cwd=WORK)
-            so = p.stdout
-            rc = p.returncode
-        except subprocess.TimeoutExpired as e:
-            so = e.stdout or b""
-            rc = "timeout"
-        got = [l for l in so.decode("ascii", "replace").split("\n") if l]
-        for l in got:
-            f = l.split("\t")
+        p = subprocess.Popen([HARNESS_BIN], stdin=subprocess.PIPE, stdout=subprocess.PIPE,
+                             stderr=subprocess.DEVNULL, cwd=WORK)
+        q = queue.Queue()
+
+        def reader(proc=p, q=q):
+            for line in proc.stdout:
+                q.put(line)
+            q.put(None)
+
+        def writer(proc=p, start=i):
+            try:
+                for r in reqs[start:]:
+                    proc.stdin.write((r[0] + "".join("\t" + _hex(x) for x in r[1:]) + "\n").encode())
+                proc.stdin.close()
+            except (BrokenPipeError, OSError, ValueError):
+                pass
+
+        threading.Thread(target=reader, daemon=True).start()
+        threading.Thread(target=writer, daemon=True).start()
+        while i < n:
+            try:
+                line = q.get(timeout=timeout_per_case)
+            except queue.Empty:
+                p.kill()
+                out.append(("timeout", [b"no answer within %ds" % int(timeout_per_case)]))
+                i += 1
+                break
+            if line is None:
+                rc = p.wait()
+                out.append(("crash", [str(rc).encode()]))
+                i += 1
+                break
+            f = line.decode("ascii", "replace").rstrip("\n").split("\t")
             out.append((f[0], [bytes.fromhex(x) for x in f[1:]]))
-        i += len(got)
-        if i < n and len(got) < len(lines):
-            # the process died (abort / stack overflow / timeout) on request i
-            out.append(("crash", [str(rc).encode()]))
             i += 1
-    return out
+        try:
+            p.kill()
+        except OSError:
+            pass
+        p.wait()
+    return out[:n]
 
 
 def run_impl(reqs, jobs=NCPU, timeout_per_case=20.0):
